@@ -778,3 +778,44 @@ package composite
 //@ ensures [C05:match-false-is-false] (c.Type == "MatchFalse" && err == nil && result) ==> !$bool
 //@ ensures [C05:match-condition-is-status-equality] (c.Type == "MatchCondition" && err == nil && result) ==> (c.MatchCondition != nil && o.GetCondition(c.MatchCondition.Type).Status == c.MatchCondition.Status)
 //@ ensures [C05:unknown-type-is-not-ready] (err == nil && result) ==> (c.Type == "None" || c.Type == "NonEmpty" || c.Type == "MatchString" || c.Type == "MatchInteger" || c.Type == "MatchTrue" || c.Type == "MatchFalse" || c.Type == "MatchCondition")
+
+// C05 / C09: what a template says about readiness and connection details reaches the code that
+// evaluates it unchanged - one check / one extraction rule per entry, in order, with the entry's
+// own type, paths, keys and expected values (the template's "" and 0 mean "not set").
+//@ func composite.ReadinessCheckFromV1
+//@ props C05
+//@ sweep
+//@ frame fresh-only
+//@ ensures [C05:readiness-check-keeps-its-type] in != nil ==> result.Type == in.Type
+//@ ensures [C05:readiness-check-keeps-its-field-path] in != nil ==> ((in.FieldPath == "" ==> result.FieldPath == nil) && (in.FieldPath != "" ==> result.FieldPath != nil && *result.FieldPath == in.FieldPath))
+//@ ensures [C05:readiness-check-keeps-its-expected-string] in != nil ==> ((in.MatchString == "" ==> result.MatchString == nil) && (in.MatchString != "" ==> result.MatchString != nil && *result.MatchString == in.MatchString))
+//@ ensures [C05:readiness-check-keeps-its-expected-integer] in != nil ==> ((in.MatchInteger == 0 ==> result.MatchInteger == nil) && (in.MatchInteger != 0 ==> result.MatchInteger != nil && *result.MatchInteger == in.MatchInteger))
+//@ ensures [C05:readiness-check-keeps-its-expected-condition] in != nil ==> ((in.MatchCondition == nil ==> result.MatchCondition == nil) && (in.MatchCondition != nil ==> result.MatchCondition != nil && result.MatchCondition.Type == in.MatchCondition.Type && result.MatchCondition.Status == in.MatchCondition.Status))
+
+//@ func composite.ReadinessChecksFromComposedTemplate
+//@ props C05
+//@ sweep
+//@ frame fresh-only
+//@ loop range t.ReadinessChecks
+//@   invariant [C05:checks-converted-so-far-are-the-templates] len(out) == len(t.ReadinessChecks) && forall j :: 0 <= j && j < done ==> (out[j].Type == t.ReadinessChecks[j].Type && ((t.ReadinessChecks[j].MatchString == "" ==> out[j].MatchString == nil) && (t.ReadinessChecks[j].MatchString != "" ==> out[j].MatchString != nil && *out[j].MatchString == t.ReadinessChecks[j].MatchString)))
+//@ ensures [C05:one-readiness-check-per-template-entry-in-order] t != nil ==> (len(result) == len(t.ReadinessChecks) && forall j :: 0 <= j && j < len(result) ==> result[j].Type == t.ReadinessChecks[j].Type)
+
+//@ func composite.connectionDetailType
+//@ props C09
+//@ sweep
+//@ frame fresh-only
+//@ ensures [C09:explicit-connection-detail-type-wins] d.Type != nil ==> result == *d.Type
+//@ ensures [C09:connection-detail-type-inferred-from-what-is-set] d.Type == nil ==>
+//@      ((d.Value != nil ==> result == ConnectionDetailTypeFromValue)
+//@    && (d.Value == nil && d.FromConnectionSecretKey != nil ==> result == ConnectionDetailTypeFromConnectionSecretKey)
+//@    && (d.Value == nil && d.FromConnectionSecretKey == nil && d.FromFieldPath != nil ==> result == ConnectionDetailTypeFromFieldPath)
+//@    && (d.Value == nil && d.FromConnectionSecretKey == nil && d.FromFieldPath == nil ==> result == ConnectionDetailTypeFromConnectionSecretKey))
+
+//@ macro EXTRACTED(o, d) = o.Value == d.Value && o.FromConnectionSecretKey == d.FromConnectionSecretKey && o.FromFieldPath == d.FromFieldPath && (d.Name != nil ==> o.Name == *d.Name) && (d.Name == nil && d.FromConnectionSecretKey == nil ==> o.Name == "")
+//@ func composite.ExtractConfigsFromComposedTemplate
+//@ props C09
+//@ sweep
+//@ frame fresh-only
+//@ loop range t.ConnectionDetails
+//@   invariant [C09:rules-converted-so-far-are-the-templates] len(out) == len(t.ConnectionDetails) && forall j :: 0 <= j && j < done ==> EXTRACTED(out[j], t.ConnectionDetails[j])
+//@ ensures [C09:one-extraction-rule-per-template-entry-in-order] t != nil ==> (len(result) == len(t.ConnectionDetails) && forall j :: 0 <= j && j < len(result) ==> EXTRACTED(result[j], t.ConnectionDetails[j]))
